@@ -1264,3 +1264,124 @@ pub fn c20_tow(m: &mut EM, g: &EpGen, rng: &mut Rng, thorough: bool) {
 pub fn mk_unused() -> Duration {
     mk(0, 0)
 }
+
+// ------------------------------------------------------------------ L2: behaviours of the scaled Epoch machine
+
+/// Concretisation of the scaled world of spec/Gen_Epoch.tla (= MC_Scales): one tick is one second; the
+/// k-th scaled leap entry is mapped to a real table entry, so that "n ticks from the k-th entry" becomes
+/// "n seconds from a real entry".  `j` selects which real insertions stand for the scaled entries 2 and 3.
+struct Concr {
+    j: usize,
+    entries: Vec<(u64, u64)>,
+}
+
+impl Concr {
+    const REF_S: [i64; 9] = [0, -2, 8, 8, 0, 5, 7, 9, 5];
+    const UTC_T: [i64; 3] = [10, 18, 26];
+    const GAP_S: [i64; 3] = [10, 21, 30];
+    fn real_entry(&self, k: usize) -> (i128, i128, i128) {
+        // (UTC count of the entry, offset before, offset from the entry on), ns
+        let i = if k == 0 { 0 } else { self.j + k - 1 };
+        let (t, d) = self.entries[i];
+        let prev = if i == 0 { 0 } else { self.entries[i - 1].1 };
+        (t as i128 * NS_S as i128, prev as i128 * NS_S as i128, d as i128 * NS_S as i128)
+    }
+    fn scaled_instant(ts: usize, v: i64) -> i64 {
+        if ts == 4 {
+            v + if v >= 26 { 5 } else if v >= 18 { 4 } else if v >= 10 { 3 } else { 0 }
+        } else {
+            v + Self::REF_S[ts]
+        }
+    }
+    /// the real TAI instant (ns since 1900-01-01 TAI) standing for the scaled instant t
+    fn real_instant(&self, t: i64) -> i128 {
+        for k in 0..3 {
+            let dlt = t - Self::GAP_S[k];
+            if dlt.abs() <= 4 {
+                let (tt, prev, d) = self.real_entry(k);
+                // the first scaled entry steps by three ticks, the real one by ten seconds: past the scaled gap
+                // means past the real gap
+                let secs = if k == 0 && dlt >= 3 { dlt as i128 + (d - prev) / NS_S as i128 - 3 } else { dlt as i128 };
+                return tt + prev + secs * NS_S as i128;
+            }
+        }
+        // elsewhere: the same number of seconds from a base date that is far from every entry (2000-03-01)
+        let base = (days_from_civil(2000, 3, 1) - days_from_civil(1900, 1, 1)) as i128 * NS_DAY as i128;
+        base + t as i128 * NS_S as i128
+    }
+    fn real_ref(ts: usize) -> i128 {
+        let day = |y, m, d| (days_from_civil(y, m, d) - days_from_civil(1900, 1, 1)) as i128 * NS_DAY as i128;
+        match ts {
+            1 => -32_184_000_000,
+            2 | 3 => day(2000, 1, 1) + 43_200 * NS_S as i128 - 32_184_000_000,
+            5 | 8 => day(1980, 1, 6) + 19 * NS_S as i128,
+            6 => day(1999, 8, 22) + 19 * NS_S as i128,
+            7 => day(2006, 1, 1) + 33 * NS_S as i128,
+            _ => 0,
+        }
+    }
+    /// the real epoch standing for the scaled epoch (ts, v); `jit` adds a sub-second pattern
+    fn epoch(&self, ts: usize, v: i64, jit: u64) -> Epoch {
+        let sub: i128 = [0, 0, 1, -1, 500_000_000, 999_999_999, 0, 2][(jit % 8) as usize];
+        let count = if ts == 4 {
+            let mut c: Option<i128> = None;
+            for k in 0..3 {
+                let dlt = v - Self::UTC_T[k];
+                if dlt.abs() <= 4 {
+                    c = Some(self.real_entry(k).0 + dlt as i128 * NS_S as i128);
+                    break;
+                }
+            }
+            c.unwrap_or_else(|| self.real_instant(Self::scaled_instant(4, v)))
+        } else {
+            self.real_instant(Self::scaled_instant(ts, v)) - Self::real_ref(ts)
+        };
+        Epoch::from_duration(ns_dur(count + sub), SCALES[ts])
+    }
+}
+
+/// Replays TLC-generated behaviours of the scaled Epoch machine in the real code (every call recorded).
+pub fn l2_epochs(rec: &mut Rec, path: &str, allowed: &[&str]) -> u64 {
+    let txt = match std::fs::read_to_string(path) {
+        Ok(t) => t,
+        Err(_) => return 0,
+    };
+    let mut m = EM::new(rec);
+    let mut nb = 0u64;
+    let entries = leap_entries();
+    for line in txt.lines() {
+        let v: serde_json::Value = match serde_json::from_str(line) {
+            Ok(v) => v,
+            Err(_) => continue,
+        };
+        nb += 1;
+        let cc = Concr { j: 1 + (nb as usize % 26), entries: entries.clone() };
+        // every behaviour starts from a defined register
+        m.eload(TimeScale::TAI, 0, 0);
+        for (k, step) in v.as_array().unwrap().iter().enumerate() {
+            let op = step["op"].as_str().unwrap_or("");
+            if !allowed.contains(&op) {
+                continue; // calls that are not the subject of the property being checked are left out
+            }
+            let a: Vec<i64> = step["a"].as_array().map(|x| x.iter().map(|y| y.as_i64().unwrap_or(0)).collect()).unwrap_or_default();
+            let var = nb.wrapping_mul(7) + k as u64;
+            let dur = |x: i64| ns_dur(x as i128 * NS_S as i128 + if var % 5 == 0 { 1 } else { 0 });
+            match op {
+                "load" => {
+                    let e = cc.epoch(a[0] as usize, a[1], var);
+                    m.eload_dur(e.time_scale, e.duration);
+                }
+                "add" => m.add_d(dur(a[0]), k % 2 == 0),
+                "sub" => m.sub_d(dur(a[0]), k % 2 == 0),
+                "to_scale" => m.to_scale(SCALES[a[0] as usize]),
+                "cmp" => m.cmp(cc.epoch(a[0] as usize, a[1], var / 3)),
+                "sub_e" => m.sub_e(cc.epoch(a[0] as usize, a[1], var / 3)),
+                "floor" => m.snap(0, dur(a[0])),
+                "ceil" => m.snap(1, dur(a[0])),
+                "round" => m.snap(2, dur(a[0])),
+                _ => {}
+            }
+        }
+    }
+    nb
+}
